@@ -784,8 +784,8 @@ pub fn property() -> Property {
     Property {
         id: "C11",
         rule: "cases = finished (X, y) matrices + estimator configuration. X = (G + k) diag(scale): G gaussian or small-integer lattice, n 6..=60, p 1..=6, n >= p+2, \
-               scale_j = 10^(e/2) with e in -6..=6, offset k_j in {exactly centred, raw, +-1, +-100} column scales (at most one +-100), optional constant column (zero or non-zero) and \
-               near-collinear pair (elastic net; the pair only with a positive ridge part); y = X w* + b* + sigma noise with row-sparse w*, 1..=3 target columns for the multi-task estimator; \
+               scale_j = 10^(e/2) with e in -6..=6, offset k_j in {exactly centred, raw, +-1, +-100} column scales (at most one +-100), optional constant column (zero or non-zero), \
+               near-collinear pair (elastic net; the pair only with a positive ridge part) or planted feature exactly uncorrelated with every target (column e_a - e_b with y_a = y_b); y = X w* + b* + sigma noise with row-sparse w*, 1..=3 target columns for the multi-task estimator; \
                penalty in {0,1e-3,0.1,1,10}, l1_ratio in {0,0.3,0.5,1}, intercept on/off, tolerance in {1e-4,1e-8,1e-12} (f32: {1e-3,1e-4}), max_iterations 10000 (quick) / 100000 (thorough). \
                Non-trivial = judged (converged) case with un-centred X and intercept, or >= 1 exactly-zero and >= 1 non-zero coefficient row, or multi-task with >= 2 target columns; \
                for OLS: un-centred X with intercept. distinct = distinct canonical JSON of the case",
@@ -795,22 +795,23 @@ pub fn property() -> Property {
             format!("elastic-net fits are judged only when the solver reports convergence (n_steps < max_iterations = {MAX_ITER_QUICK} quick / {MAX_ITER_THOROUGH} thorough; f32: {F32_ITER}); other fits are counted as skipped"),
             format!("when n*penalty*l1_ratio = 0 linfa's duality gap equals the primal value and its stopping rule cannot fire (observation, not judged as a violation: the gap is still an upper bound); such fits are judged when two fits with budgets {RIDGE_ITER} and {} agree to {STATIONARY:e} (scaled by column norms), and then suboptimality must be within float slack", 2 * RIDGE_ITER),
             "a fit that exhausts its budget of >= 10000 sweeps is a violation only when tolerance >= 1e-8 and the harness' plain coordinate descent reaches a duality gap below 1e-3*tolerance*||y||^2 in fewer than 2000 sweeps".into(),
-            format!("a column counts as centred when |sum_i x_ij| <= {CENTRED:e}*sqrt(n)*||x_j||; joint optimality in (w,b) is enforced for all designs, the failures on designs with a non-centred column and intercept == mean(y) carry the known-finding signature"),
+            format!("a column counts as centred when |sum_i x_ij| <= max({CENTRED:e}, 16 eps)*sqrt(n)*||x_j||; joint optimality in (w,b) is enforced for all designs, the failures on designs with a non-centred column and intercept == mean(y) carry the known-finding signature"),
             format!("exact-zero rule: row j must be exactly zero when ||x_j^T(partial residual)|| + margin < n*penalty*l1_ratio*(1-1e-9); margin = sum_{{k>j}} |x_j^T x_k| * ||W_k - W_k(previous sweep)|| + {DRIFT_F64:e}*||x_j||*(cancellation-free residual norm); the previous sweep's iterate is obtained from linfa itself with tolerance 0 and max_iterations = n_steps-1; f64 only"),
             format!("OLS: |x_j^T r| <= {ORTH_EPS}*eps*||x_j||*M and |1^T r| <= {ORTH_EPS}*eps*sqrt(n)*M with M = ||y|| + sum_k ||x_k|| |w_k| + sqrt(n)|b|; SSE slack 1e4*eps*M^2; agreement with the reference solve within {AGREE_EPS}*eps*cond*M where cond is the condition number of the unit-column Gram matrix of [X 1]; designs with cond > {COND_MAX:e} are not judged"),
+            "non-finite output is always a failure; NaN coefficients of the multi-task estimator with n*penalty*l1_ratio == 0 carry the known-finding signature of the 0/0 in block_soft_thresholding, every other non-finite output the plain signature".into(),
             "predict must equal X w + b within 64*eps*(|b| + sum_j |x_ij w_j|)".into(),
             "f32 cases are mild (scales 0.1..10, offsets <= 1 scale, no collinear pair); for f32 the exact-zero rule, the two-budget ridge rule and the budget rule are not applied".into(),
             "trusted base: ndarray, the harness' own Gaussian elimination / Jacobi eigen-solver / coordinate descent (used only to propose candidate points, whose objective is evaluated from the definition)".into(),
         ],
         subs: vec![
-            prop_sub("elasticnet", 1600, 16000, |t: Tier| enet_strategy(Flavor::Enet, t.pick(MAX_ITER_QUICK, MAX_ITER_THOROUGH)), check_enet)
-                .chunks(8)
+            prop_sub("elasticnet", 6000, 48000, |t: Tier| enet_strategy(Flavor::Enet, t.pick(MAX_ITER_QUICK, MAX_ITER_THOROUGH)), check_enet)
+                .chunks(16)
                 .require(&["converged_reported_by_solver", "converged_two_budget_stationary", "solution_zero_and_nonzero_rows", "row_strictly_under_threshold", "uncentred_x_with_intercept", "x_all_columns_centred"]),
-            prop_sub("multitask", 1200, 11000, |t: Tier| enet_strategy(Flavor::Multi, t.pick(MAX_ITER_QUICK, MAX_ITER_THOROUGH)), check_enet)
-                .chunks(8)
+            prop_sub("multitask", 4500, 33000, |t: Tier| enet_strategy(Flavor::Multi, t.pick(MAX_ITER_QUICK, MAX_ITER_THOROUGH)), check_enet)
+                .chunks(16)
                 .require(&["converged_reported_by_solver", "converged_two_budget_stationary", "solution_zero_and_nonzero_rows", "row_strictly_under_threshold", "targets_2", "targets_3", "x_all_columns_centred"]),
-            prop_sub("ols", 800, 10000, |_t: Tier| ols_strategy(), check_ols).chunks(4).require(&["uncentred_x_with_intercept", "f32", "f64"]),
-            prop_sub("elasticnet_f32", 400, 3000, |_t: Tier| enet_strategy(Flavor::F32, F32_ITER), check_enet).chunks(2).require(&["converged_reported_by_solver"]),
+            prop_sub("ols", 6000, 60000, |_t: Tier| ols_strategy(), check_ols).chunks(8).require(&["uncentred_x_with_intercept", "f32", "f64"]),
+            prop_sub("elasticnet_f32", 1500, 9000, |_t: Tier| enet_strategy(Flavor::F32, F32_ITER), check_enet).chunks(4).require(&["converged_reported_by_solver"]),
         ],
     }
 }
